@@ -469,6 +469,8 @@ def check_raii(ctx, tu, info, mut):
         elif si.acquires:
             ctx.ob('C09.R', f, 'mutexes are locked only through scope objects', True, key_detail='bare lock')
     for f in tu.fns:
+        if f.cls in tu.counter_guard_classes() and f.kind in ('ctor', 'dtor'):
+            continue
         if f.outermost().skey.split('::')[0] in ('EventQueueBase', 'HeterEventQueueBase'):
             for w in info.writes(f):
                 if w['path'][-1:] == ('.queueEmptyCounter',) and w['how'] in ('++', '--', '+=', '-=', 'assign', 'call:store', 'call:exchange', 'call:fetch_add', 'call:fetch_sub'):
